@@ -16,7 +16,7 @@
  *                                               space without memory behind it, so that the code goes on past an allocation the
  *                                               sanitizer's allocator would refuse (what it asks for next is what is compared)
  *   allocs                                      -> allocs <s1,s2,..>: the sizes of 64 KiB and more that the previous line's
- *                                               idtable / fragtable / xload / inode call handed to malloc/calloc/realloc, in order
+ *                                               idtable / fragtable / xload / inode / unpack call handed to malloc/calloc/realloc, in order
  *   mr <start> <limit>                          new meta reader on the image
  *   seek <block> <offset>                       -> ok pos <block> <off> | err <NAME>
  *   read <n>                                    -> ok pos <block> <off> | err <NAME>
@@ -464,7 +464,7 @@ int main(void)
 			ino->payload_bytes_used = U(t[1]);
 			ino->payload_bytes_available = n;
 			memcpy(ino->extra, b, n);
-			r = sqfs_inode_unpack_dir_index_entry(ino, &idx, U(t[2]));
+			REC(r = sqfs_inode_unpack_dir_index_entry(ino, &idx, U(t[2])));   /* with `valloc 1` a huge request is granted: the copy that follows is what shows */
 			if (r) printf("err %s\n", ename(r)); else printf("ok %u\n", (unsigned)idx->size);
 			free(idx); free(ino); free(b);
 		} else if (!strcmp(t[0], "resolve") && nt == 3) {
